@@ -144,6 +144,11 @@ pub const C05: Registry = &[
     ("kx_client_session_keys", kx_client),
     ("kx_server_session_keys", kx_server),
     ("kx_pair", kx_pair),
+    // same bodies, run on the low-order / non-canonical peer keys: libsodium
+    // refuses these (all-zero shared secret) and so must dryoc
+    ("kx_client_weak_peer_key", kx_client),
+    ("kx_server_weak_peer_key", kx_server),
+    ("box_beforenm_special_peer_key", beforenm),
 ];
 
 fn h32(s: &str) -> [u8; 32] {
@@ -256,9 +261,9 @@ pub fn c05(ctx: &mut Ctx) -> Search {
     }
     let sk = ctx.rng.arr::<32>();
     for p in &points {
-        ctx.run("box_beforenm", Input::new().b("pk", p).b("sk", &sk))?;
-        ctx.run("kx_client_session_keys", Input::new().b("client_sk", &sk).b("server_pk", p))?;
-        ctx.run("kx_server_session_keys", Input::new().b("server_sk", &sk).b("client_pk", p))?;
+        ctx.run("box_beforenm_special_peer_key", Input::new().b("pk", p).b("sk", &sk))?;
+        ctx.run("kx_client_weak_peer_key", Input::new().b("client_sk", &sk).b("server_pk", p))?;
+        ctx.run("kx_server_weak_peer_key", Input::new().b("server_sk", &sk).b("client_pk", p))?;
     }
     Ok(())
 }
